@@ -883,4 +883,463 @@ theorem finalize_completes (kind : Kind) (o : Orig) (w : World) (br : BR) (wl : 
       rw [waitStep_of_readyNow kind wl _ hstat hready]
       exact finishHPA_noFault_ok _ 1 (by simpa [gNoApiVersion] using hH)
 
+/-! ## C01 — exposure of the new revision -/
+
+theorem clampSurge_nonneg (s : IntOrPct) (R : Int) : 0 ≤ clampSurge s R := by unfold clampSurge; omega
+
+theorem exposureBG_nonneg (kind : Kind) (wl : Workload) : 0 ≤ exposureBG kind wl := by
+  unfold exposureBG
+  cases wl.replicas with
+  | none => simp
+  | some R =>
+    simp only []
+    split
+    · simp
+    · have := clampSurge_nonneg ((ruSurge wl.ru).getD (defaultSurge kind)) R
+      cases kind <;> simp only [] <;> split <;> omega
+
+/-- the clamp of the surge is exactly what `CalculateBatchReplicas` plans, for a non-negative replica count -/
+theorem clampSurge_le_planned (e : IntOrPct) (R X : Int) (hX : 0 ≤ X) :
+    clampSurge e R ≤ max X (calcBatchReplicas R e) := by
+  unfold clampSurge calcBatchReplicas
+  simp only []
+  omega
+
+theorem held_upgradePatch_dep (e : IntOrPct) (wl : Workload) (hv : validate .deployment wl = true) :
+    held (upgradePatch .deployment e wl) = true := by
+  simp only [validate, Bool.and_eq_true, decide_eq_true_eq] at hv
+  simp [held, upgradePatch, ruUnavailable, hv.1.2]
+
+theorem held_upgradePatch_cs (e : IntOrPct) (wl : Workload) :
+    held (upgradePatch .cloneSet e wl) = held wl := by
+  cases hru : wl.ru <;> simp [held, upgradePatch, ruUnavailable, hru]
+
+/-- **C01 `upgrade_within_step`** — for every workload, plan (ints, percents, malformed entries), current batch, replica
+    count and fault: after `UpgradeBatch` the workload's own controller may run at most as many pods of the new
+    revision as before the call or as the current batch plans (`CalculateBatchReplicas`), whichever is larger —
+    no slack (for a CloneSet under the hold `Initialize` installs). -/
+theorem upgrade_within_step (kind : Kind) (w : World) (br : BR) (f : Fault) (out : CallOut)
+    (h : cpUpgradeBatch kind w br f = .val out) : upgradeWithinStep kind w br out = true := by
+  unfold upgradeWithinStep
+  cases hw : w.wl with
+  | none => rfl
+  | some wl =>
+    simp only []
+    cases hR : wl.replicas with
+    | none => rfl
+    | some R =>
+      simp only []
+      split
+      · rfl
+      · rename_i hcs
+        simp only [decide_eq_true_eq]
+        have hnn := exposureBG_nonneg kind wl
+        rcases upgrade_world kind w br f out h with ⟨hw', _⟩ | ⟨wl', R', e, hw2, hR2, _, he, hv, _, _, _, hw'⟩
+        · rw [hw']; simp only [exposureW, hw]; omega
+        · rw [hw] at hw2; cases hw2
+          rw [hR] at hR2; cases hR2
+          rw [hw']
+          have hpl : plannedOfBR br R = calcBatchReplicas R e := by simp [plannedOfBR, he]
+          have hcl := clampSurge_le_planned e R (exposureBG kind wl) hnn
+          rw [hpl]
+          simp only [exposureW]
+          cases kind
+          · have hh := held_upgradePatch_dep e wl hv
+            have : exposureBG .deployment (upgradePatch .deployment e wl) = clampSurge e R := by
+              unfold exposureBG
+              rw [hh]
+              simp [upgradePatch, hR, ruSurge]
+            rw [this]; exact hcl
+          · have hheld : held wl = true := by
+              by_cases hh : held wl = true
+              · exact hh
+              · exact absurd ⟨rfl, hh⟩ hcs
+            have : exposureBG .cloneSet (upgradePatch .cloneSet e wl) ≤ clampSurge e R := by
+              unfold exposureBG
+              rw [held_upgradePatch_cs, hheld]
+              simp only [upgradePatch, hR, ruSurge, Option.bind_some, Option.getD_some, if_true]
+              split
+              · exact clampSurge_nonneg e R
+              · omega
+            omega
+
+theorem scaled_clamp_mono (s e : IntOrPct) (R : Int) (h : scaledV s R true ≤ scaledV e R true) :
+    clampSurge s R ≤ clampSurge e R := by
+  unfold clampSurge; omega
+
+/-- the surge as the workload carries it is never exposed further than the (normalised) surge `UpgradeBatch` compares -/
+theorem clamp_le_of_cur_lt (s e : IntOrPct) (R : Int)
+    (h : scaledV (RV.BatchCtx.normSurge s) R true < scaledV e R true) : clampSurge s R ≤ clampSurge e R := by
+  unfold RV.BatchCtx.normSurge at h
+  split at h
+  · rename_i h1
+    subst h1
+    have : scaledV (int 0) R true = 0 := rfl
+    have h1 : scaledV (int 1) R true = 1 := rfl
+    unfold clampSurge
+    omega
+  · exact scaled_clamp_mono s e R (by omega)
+
+/-- **C01 (monotone knob)** — `UpgradeBatch` never moves the workload back toward the old revision: on a held
+    workload whose surge is set, the exposure after the call is at least the exposure before. -/
+theorem upgrade_monotone (kind : Kind) (w : World) (br : BR) (f : Fault) (out : CallOut)
+    (h : cpUpgradeBatch kind w br f = .val out) : upgradeMonotone kind w out = true := by
+  unfold upgradeMonotone
+  cases hw : w.wl with
+  | none => rfl
+  | some wl =>
+    simp only []
+    split
+    · rename_i hc
+      obtain ⟨hheld, hsome⟩ := hc
+      simp only [decide_eq_true_eq]
+      rcases upgrade_world kind w br f out h with ⟨hw', _⟩ | ⟨wl', R, e, hw2, hR, _, _, hv, hlt, _, _, hw'⟩
+      · rw [hw']; simp only [exposureW, hw]; omega
+      · rw [hw] at hw2; cases hw2
+        rw [hw']
+        simp only [exposureW]
+        obtain ⟨s, hs⟩ := Option.isSome_iff_exists.1 hsome
+        have hcur : curSurge wl = RV.BatchCtx.normSurge s := by simp [curSurge, hs]
+        rw [hcur] at hlt
+        have hmono := clamp_le_of_cur_lt s e R hlt
+        have hnn := clampSurge_nonneg s R
+        cases kind
+        · have hh := held_upgradePatch_dep e wl hv
+          have h1 : exposureBG .deployment (upgradePatch .deployment e wl) = clampSurge e R := by
+            unfold exposureBG
+            rw [hh]
+            simp [upgradePatch, hR, ruSurge]
+          have h0 : exposureBG .deployment wl ≤ clampSurge s R := by
+            unfold exposureBG
+            rw [hheld]
+            simp only [hR, hs, Option.getD_some, if_true]
+            split <;> omega
+          omega
+        · unfold exposureBG
+          rw [held_upgradePatch_cs, hheld]
+          simp only [upgradePatch, hR, ruSurge, Option.bind_some, Option.getD_some, if_true, Option.getD_none]
+          have hs' : (wl.ru.bind (·.maxSurge)) = some s := hs
+          simp only [hs', Option.getD_some]
+          split
+          · omega
+          · have : exposure (wl.partition.getD (int 0)) R ≤ exposure (int 0) R ∨ exposure (wl.partition.getD (int 0)) R ≤ 0 := by
+              unfold exposure keptStable
+              have : scaledV (int 0) R true = 0 := rfl
+              omega
+            have e0 : exposure (int 0) R = R - max 0 (min R 0) := by
+              unfold exposure keptStable; rfl
+            unfold clampSurge at hmono hnn ⊢
+            omega
+    · rfl
+
+theorem exposure_pct100 (R : Int) : exposure (pct 100) R ≤ 0 := by
+  unfold exposure keptStable scaledV scaled
+  simp only [if_true]
+  unfold ceilDiv100
+  omega
+
+theorem prepared_exposure_zero (kind : Kind) (wl : Workload) (hp : prepared kind wl = true) : exposureBG kind wl = 0 := by
+  unfold exposureBG
+  cases hR : wl.replicas with
+  | none => rfl
+  | some R =>
+    simp only []
+    cases kind
+    · simp only [prepared] at hp
+      simp [hp]
+    · simp only [prepared, decide_eq_true_eq] at hp
+      split
+      · rfl
+      · have := exposure_pct100 R
+        simp only [hp, Option.getD_some]
+        have hc : 0 ≤ (if held wl = true then clampSurge ((ruSurge wl.ru).getD (defaultSurge .cloneSet)) R else max 0 R) := by
+          split
+          · exact clampSurge_nonneg _ _
+          · omega
+        omega
+
+/-- **C01 (`Initialize`)** — `Initialize` exposes nothing of the new revision on a workload the admission webhook
+    prepared (Deployment paused, CloneSet partition `100%`), and in general never more than one pod beyond what
+    was already exposed — for every workload, HPA constellation and fault. -/
+theorem init_exposure (kind : Kind) (w : World) (br : BR) (f : Fault) (out : CallOut)
+    (h : cpInitialize kind w br f = .val out) : initExposure kind w out = true := by
+  unfold initExposure
+  cases hw : w.wl with
+  | none => rfl
+  | some wl =>
+    simp only [Bool.and_eq_true]
+    rcases initialize_wl kind w br f out h with ⟨hw', _⟩ | ⟨wl', s, hw2, _, _, _, hw'⟩
+    · have he : exposureW kind out.world = exposureBG kind wl := by simp only [exposureW, hw', hw]
+      rw [he]
+      constructor
+      · split
+        · rfl
+        · simp only [decide_eq_true_eq]; omega
+      · split
+        · rename_i hp; simp only [decide_eq_true_eq]; exact prepared_exposure_zero kind wl hp
+        · rfl
+    · rw [hw] at hw2; cases hw2
+      have he : exposureW kind out.world = exposureBG kind (initPatch kind br (initSetting kind s wl) wl) := by
+        simp only [exposureW, hw']
+      rw [he]
+      have hnn := exposureBG_nonneg kind wl
+      cases hR : wl.replicas with
+      | none =>
+        have hz : exposureBG kind (initPatch kind br (initSetting kind s wl) wl) = 0 := by
+          cases kind <;> simp [exposureBG, initPatch, hR]
+        rw [hz]
+        constructor
+        · split
+          · rfl
+          · simp only [decide_eq_true_eq]; omega
+        · split <;> simp
+      | some R =>
+        have hc1 : clampSurge (int 1) R ≤ 1 ∧ 0 ≤ clampSurge (int 1) R := by
+          have : scaledV (int 1) R true = 1 := rfl
+          unfold clampSurge; omega
+        cases kind
+        · have hh : held (initPatch .deployment br (initSetting .deployment s wl) wl) = true := by
+            simp [held, initPatch, ruUnavailable]
+          have hex : exposureBG .deployment (initPatch .deployment br (initSetting .deployment s wl) wl) =
+              if wl.paused then 0 else clampSurge (int 1) R := by
+            unfold exposureBG
+            rw [hh]
+            simp [initPatch, hR, ruSurge]
+          rw [hex]
+          constructor
+          · simp only [reduceCtorEq, false_and, if_false, decide_eq_true_eq]
+            split <;> omega
+          · split
+            · rename_i hp
+              simp only [prepared] at hp
+              simp [hp]
+            · rfl
+        · have hex : exposureBG .cloneSet (initPatch .cloneSet br (initSetting .cloneSet s wl) wl) =
+              min (max 0 (exposure (wl.partition.getD (int 0)) R))
+                (if wl.stype ≠ .other then clampSurge (int 1) R else max 0 R) := by
+            unfold exposureBG
+            simp only [initPatch, hR, Bool.false_eq_true, if_false, held, ruUnavailable, ruSurge, Option.bind_some,
+              Option.getD_some, decide_true, Bool.true_and, decide_eq_true_eq]
+          rw [hex]
+          constructor
+          · split
+            · rfl
+            · rename_i hnc
+              simp only [decide_eq_true_eq]
+              by_cases hst : wl.stype = .other
+              · have hpa : wl.paused = false := by
+                  cases hpp : wl.paused with
+                  | false => rfl
+                  | true => exact absurd ⟨rfl, hpp, hst⟩ hnc
+                have hb : exposureBG .cloneSet wl = min (max 0 (exposure (wl.partition.getD (int 0)) R)) (max 0 R) := by
+                  unfold exposureBG
+                  simp [hR, hpa, held, hst]
+                rw [hb]
+                simp only [hst, ne_eq, not_true_eq_false, if_false]
+                omega
+              · simp only [ne_eq, hst, not_false_eq_true, if_true]
+                omega
+          · split
+            · rename_i hp
+              simp only [prepared, decide_eq_true_eq] at hp
+              simp only [decide_eq_true_eq, hp, Option.getD_some]
+              have := exposure_pct100 R
+              have : 0 ≤ (if wl.stype ≠ .other then clampSurge (int 1) R else max 0 R) := by
+                split <;> omega
+              omega
+            · rfl
+
+
+/-! ### C01 over histories -/
+
+/-- invariant: the exposure is within the bound `B`, the blue-green hold is complete whenever `minReadySeconds` is
+    the blue-green value, and a CloneSet is not of a foreign update type -/
+def expInv (kind : Kind) (B : Int) (w : World) : Bool :=
+  match w.wl with
+  | none => true
+  | some wl =>
+    decide (exposureBG kind wl ≤ B) &&
+    (!decide (wl.minReadySeconds = maxReady) || decide (ruUnavailable wl.ru = some (int 0))) &&
+    (kind != .cloneSet || decide (wl.stype ≠ .other))
+
+/-- the events of the progressing phase: `Initialize`, `UpgradeBatch` for a batch that plans at most `B` pods of the
+    current replica count, and status changes -/
+def progressEv (B : Int) (w : World) : Ev → Bool
+  | .call .init _ _ => true
+  | .call .upgrade br _ =>
+    (match w.wl with
+     | some wl => (match wl.replicas with
+        | some R => decide (plannedOfBR br R ≤ B)
+        | none => true)
+     | none => true)
+  | .call .fin _ _ => false
+  | .status _ => true
+  | .scale _ => false
+
+def progressRun (kind : Kind) (B : Int) (w : World) : List Ev → Bool
+  | [] => true
+  | e :: t =>
+    progressEv B w e &&
+    (match applyEv kind w e with
+     | some w' => progressRun kind B w' t
+     | none => true)
+
+theorem exposureBG_status (kind : Kind) (wl : Workload) (st : Status) :
+    exposureBG kind { wl with status := st } = exposureBG kind wl := by
+  cases kind <;> rfl
+
+theorem expInv_step (kind : Kind) (B : Int) (hB : 1 ≤ B) (w w' : World) (e : Ev)
+    (hi : expInv kind B w = true) (hp : progressEv B w e = true) (he : applyEv kind w e = some w') :
+    expInv kind B w' = true := by
+  cases e with
+  | status st =>
+    simp only [applyEv, Option.some.injEq] at he
+    subst he
+    unfold expInv at hi ⊢
+    cases hw : w.wl with
+    | none => rfl
+    | some wl =>
+      rw [hw] at hi
+      simp only [Option.map_some, exposureBG_status]
+      exact hi
+  | scale r => simp [progressEv] at hp
+  | call op br f =>
+    simp only [applyEv] at he
+    split at he
+    · rename_i out hc
+      simp only [Option.some.injEq] at he
+      subst he
+      cases hw : w.wl with
+      | none =>
+        -- nothing to patch: the workload stays absent
+        have : out.world.wl = none := by
+          cases op with
+          | init =>
+            rcases initialize_wl kind w br f out hc with ⟨h1, _⟩ | ⟨wl, _, h1, _⟩
+            · rw [h1, hw]
+            · rw [hw] at h1; cases h1
+          | upgrade =>
+            rcases upgrade_world kind w br f out hc with ⟨h1, _⟩ | ⟨wl, _, _, h1, _⟩
+            · rw [h1, hw]
+            · rw [hw] at h1; cases h1
+          | fin => simp [progressEv] at hp
+        simp only [expInv, this]
+      | some wl =>
+        unfold expInv at hi
+        rw [hw] at hi
+        simp only [Bool.and_eq_true, Bool.or_eq_true, decide_eq_true_eq, Bool.not_eq_true', decide_eq_false_iff_not,
+          bne_iff_ne, ne_eq] at hi
+        obtain ⟨⟨hexp, hhold⟩, hcs⟩ := hi
+        cases op with
+        | fin => simp [progressEv] at hp
+        | init =>
+          have hie := init_exposure kind w br f out hc
+          unfold initExposure at hie
+          rw [hw] at hie
+          simp only [Bool.and_eq_true] at hie
+          have hnotex : ¬ (kind = .cloneSet ∧ wl.paused = true ∧ wl.stype = .other) := by
+            intro ⟨hk, _, hst⟩
+            rcases hcs with h | h
+            · exact h hk
+            · exact h hst
+          have hle := hie.1
+          simp only [hnotex, if_false, decide_eq_true_eq] at hle
+          rcases initialize_wl kind w br f out hc with ⟨h1, _⟩ | ⟨wl', s, h1, _, _, _, h2⟩
+          · unfold expInv
+            rw [h1, hw]
+            simp only [Bool.and_eq_true, Bool.or_eq_true, decide_eq_true_eq, Bool.not_eq_true', decide_eq_false_iff_not,
+              bne_iff_ne, ne_eq]
+            exact ⟨⟨hexp, hhold⟩, hcs⟩
+          · rw [hw] at h1; cases h1
+            simp only [exposureW, h2] at hle
+            unfold expInv
+            rw [h2]
+            simp only [Bool.and_eq_true, Bool.or_eq_true, decide_eq_true_eq, Bool.not_eq_true', decide_eq_false_iff_not,
+              bne_iff_ne, ne_eq]
+            refine ⟨⟨by omega, ?_⟩, ?_⟩
+            · right; cases kind <;> rfl
+            · cases kind
+              · left; decide
+              · rcases hcs with h | h
+                · exact absurd rfl h
+                · right; exact h
+        | upgrade =>
+          rcases upgrade_world kind w br f out hc with ⟨h1, _⟩ | ⟨wl', R, e, h1, hR, _, he, hv, _, _, _, h2⟩
+          · unfold expInv
+            rw [h1, hw]
+            simp only [Bool.and_eq_true, Bool.or_eq_true, decide_eq_true_eq, Bool.not_eq_true', decide_eq_false_iff_not,
+              bne_iff_ne, ne_eq]
+            exact ⟨⟨hexp, hhold⟩, hcs⟩
+          · rw [hw] at h1; cases h1
+            have hws := upgrade_within_step kind w br f out hc
+            unfold upgradeWithinStep at hws
+            simp only [hw, hR] at hws
+            simp only [progressEv, hw, hR, decide_eq_true_eq] at hp
+            have hmr : wl.minReadySeconds = maxReady := by
+              cases kind <;> simp only [validate, Bool.and_eq_true, decide_eq_true_eq] at hv
+              · exact hv.1.2
+              · exact hv.2
+            have hun : ruUnavailable wl.ru = some (int 0) := by
+              rcases hhold with h | h
+              · exact absurd hmr h
+              · exact h
+            have hheld : kind = .cloneSet → held wl = true := by
+              intro hk
+              subst hk
+              simp only [validate, Bool.and_eq_true, decide_eq_true_eq, ne_eq, decide_not, Bool.not_eq_true',
+                decide_eq_false_iff_not] at hv
+              simp [held, hmr, hun, hv.1.2]
+            have hle : exposureW kind out.world ≤ max (exposureBG kind wl) (plannedOfBR br R) := by
+              by_cases hk : kind = .cloneSet
+              · simp only [hk, hheld hk, not_true_eq_false, and_false, if_false, decide_eq_true_eq] at hws
+                rw [hk]; exact hws
+              · simp only [hk, false_and, if_false, decide_eq_true_eq] at hws
+                exact hws
+            rw [h2] at hle
+            simp only [exposureW] at hle
+            unfold expInv
+            rw [h2]
+            simp only [Bool.and_eq_true, Bool.or_eq_true, decide_eq_true_eq, Bool.not_eq_true', decide_eq_false_iff_not,
+              bne_iff_ne, ne_eq]
+            refine ⟨⟨by omega, ?_⟩, ?_⟩
+            · right
+              cases kind
+              · rfl
+              · simp only [upgradePatch, ruUnavailable, Option.bind_some]; exact hun
+            · cases kind
+              · left; decide
+              · rcases hcs with h | h
+                · exact absurd rfl h
+                · right; exact h
+    · cases he
+
+/-- **C01 (whole progressing phase)** — from any world in which the exposure is within a bound `B ≥ 1`, along every
+    history of `Initialize` / `UpgradeBatch` calls (any order, any BatchRelease, any fault) and status changes in
+    which every `UpgradeBatch` works on a batch that plans at most `B` pods: at every point the workload's own
+    controller may run at most `B` pods of the new revision.  (`B` = what the current step of the Rollout plans;
+    the executor invariant `currentBatch ≤ batchPartition` supplies the hypothesis on the batches.) -/
+theorem exposure_within_plan (kind : Kind) (B : Int) (hB : 1 ≤ B) (evs : List Ev) (w w' : World)
+    (hi : expInv kind B w = true) (hp : progressRun kind B w evs = true) (hr : run kind w evs = some w') :
+    exposureW kind w' ≤ B := by
+  have key : expInv kind B w' = true := by
+    induction evs generalizing w with
+    | nil => simp only [run, Option.some.injEq] at hr; subst hr; exact hi
+    | cons e t ih =>
+      unfold run at hr
+      unfold progressRun at hp
+      cases he : applyEv kind w e with
+      | none => rw [he] at hr; cases hr
+      | some w1 =>
+        rw [he] at hr hp
+        simp only [Bool.and_eq_true] at hp
+        exact ih w1 (expInv_step kind B hB w w1 e hi hp.1 he) hp.2 hr
+  unfold expInv at key
+  unfold exposureW
+  cases hw : w'.wl with
+  | none => simp only []; omega
+  | some wl =>
+    rw [hw] at key
+    simp only [Bool.and_eq_true, decide_eq_true_eq] at key
+    exact key.1.1
+
 end RV.Props.CtlBlueGreen
